@@ -17,6 +17,8 @@
 -/
 import KmipModel.Lemmas.KeyAccessLemmas
 import KmipModel.Lemmas.PlanRoundtrip18
+import KmipModel.Lemmas.BigIntLemmas
+import KmipModel.Lemmas.FixpointLemmas
 namespace Kmip.Key.Wire
 open Kmip Kmip.Key
 
@@ -65,11 +67,14 @@ def objVal : Obj → Option Val
   | _ => none
 
 /-- no attributes inside the key value (the builders put none there). -/
-def KeyBlockV.Wireable (kb : KeyBlockV) : Prop :=
+def _root_.Kmip.Key.KeyBlockV.Wireable (kb : KeyBlockV) : Prop :=
   ∀ kv, kb.keyValue = some kv → ∀ p, kv.plain = some p → p.attrs = 0
 
 def Wireable : Obj → Prop
-  | .symmetricKey kb | .publicKey kb | .privateKey kb | .secretData _ kb => kb.Wireable
+  | .symmetricKey kb => KeyBlockV.Wireable kb
+  | .publicKey kb => KeyBlockV.Wireable kb
+  | .privateKey kb => KeyBlockV.Wireable kb
+  | .secretData _ kb => KeyBlockV.Wireable kb
   | _ => True
 
 /-! ## 2. `Val` → Go object -/
@@ -188,54 +193,57 @@ def valObj (ot : Nat) : Val → Option Obj
 /-! ## 3. Inversion of `ContentEq` on the constructors used above -/
 
 theorem ceq_int {a : Int} {v : Val} (h : ContentEq (.int a) v) : v = .int a := by
-  cases v <;> rw [ContentEq] at h <;> first | contradiction | (subst h; rfl)
+  cases v <;> simp [ContentEq] at h
+  subst h; rfl
 
 theorem ceq_big {a : Int} {v : Val} (h : ContentEq (.big a) v) : v = .big a := by
-  cases v <;> rw [ContentEq] at h <;> first | contradiction | (subst h; rfl)
+  cases v <;> simp [ContentEq] at h
+  subst h; rfl
 
 theorem ceq_bytes {b : Bytes} {v : Val} (h : ContentEq (.bytes (some b)) v) :
     ∃ b', v = .bytes b' ∧ b'.getD [] = b := by
-  cases v <;> rw [ContentEq] at h <;> first | contradiction | exact ⟨_, rfl, by simpa using h.symm⟩
+  cases v <;> simp [ContentEq] at h
+  exact ⟨_, rfl, h.symm⟩
 
 theorem ceq_struct {as : List Val} {v : Val} (h : ContentEq (.struct as) v) :
     ∃ bs, v = .struct bs ∧ ContentEqList as bs := by
-  cases v <;> rw [ContentEq] at h <;> first | contradiction | exact ⟨_, rfl, h⟩
+  cases v <;> simp [ContentEq] at h
+  exact ⟨_, rfl, h⟩
 
 theorem ceq_list_nil {v : Val} (h : ContentEq (.list []) v) : v = .list [] := by
   cases v with
   | list xs =>
-    rw [ContentEq] at h
     cases xs with
     | nil => rfl
-    | cons x xs => rw [ContentEqList] at h; contradiction
-  | _ => rw [ContentEq] at h; contradiction
+    | cons x xs => simp [ContentEq, ContentEqList] at h
+  | _ => simp [ContentEq] at h
 
 theorem ceq_ptr_none {v : Val} (h : ContentEq (.ptr none) v) : v = .ptr none := by
   cases v with
   | ptr o =>
     cases o with
     | none => rfl
-    | some b => rw [ContentEq] at h; contradiction
-  | _ => rw [ContentEq] at h; contradiction
+    | some b => simp [ContentEq] at h
+  | _ => simp [ContentEq] at h
 
 theorem ceq_ptr_some {a : Val} {v : Val} (h : ContentEq (.ptr (some a)) v) :
     ∃ b, v = .ptr (some b) ∧ ContentEq a b := by
   cases v with
   | ptr o =>
     cases o with
-    | none => rw [ContentEq] at h; contradiction
+    | none => simp [ContentEq] at h
     | some b => rw [ContentEq] at h; exact ⟨b, rfl, h⟩
-  | _ => rw [ContentEq] at h; contradiction
+  | _ => simp [ContentEq] at h
 
 theorem ceql_nil {l : List Val} (h : ContentEqList [] l) : l = [] := by
   cases l with
   | nil => rfl
-  | cons b bs => rw [ContentEqList] at h; contradiction
+  | cons b bs => simp [ContentEqList] at h
 
 theorem ceql_cons {a : Val} {as l : List Val} (h : ContentEqList (a :: as) l) :
     ∃ b bs, l = b :: bs ∧ ContentEq a b ∧ ContentEqList as bs := by
   cases l with
-  | nil => rw [ContentEqList] at h; contradiction
+  | nil => simp [ContentEqList] at h
   | cons b bs => rw [ContentEqList] at h; exact ⟨b, bs, rfl, h.1, h.2⟩
 
 /-! ## 4. Reading back what is equal in content -/
@@ -270,15 +278,15 @@ theorem valRsaPriv_of_ceq (t : RsaPrivT) (v : Val) (h : ContentEq (rsaPrivVal t)
     valRsaPriv v = some t := by
   obtain ⟨l, hv, hl⟩ := ceq_struct h
   subst hv
-  obtain ⟨x0, l0, e0, h0, hl⟩ := ceql_cons hl; subst e0
-  obtain ⟨x1, l1, e1, h1, hl⟩ := ceql_cons hl; subst e1
-  obtain ⟨x2, l2, e2, h2, hl⟩ := ceql_cons hl; subst e2
-  obtain ⟨x3, l3, e3, h3, hl⟩ := ceql_cons hl; subst e3
-  obtain ⟨x4, l4, e4, h4, hl⟩ := ceql_cons hl; subst e4
-  obtain ⟨x5, l5, e5, h5, hl⟩ := ceql_cons hl; subst e5
-  obtain ⟨x6, l6, e6, h6, hl⟩ := ceql_cons hl; subst e6
-  obtain ⟨x7, l7, e7, h7, hl⟩ := ceql_cons hl; subst e7
-  have := ceql_nil hl; subst this
+  obtain ⟨x0, l0, e0, h0, hl0⟩ := ceql_cons hl; subst e0
+  obtain ⟨x1, l1, e1, h1, hl1⟩ := ceql_cons hl0; subst e1
+  obtain ⟨x2, l2, e2, h2, hl2⟩ := ceql_cons hl1; subst e2
+  obtain ⟨x3, l3, e3, h3, hl3⟩ := ceql_cons hl2; subst e3
+  obtain ⟨x4, l4, e4, h4, hl4⟩ := ceql_cons hl3; subst e4
+  obtain ⟨x5, l5, e5, h5, hl5⟩ := ceql_cons hl4; subst e5
+  obtain ⟨x6, l6, e6, h6, hl6⟩ := ceql_cons hl5; subst e6
+  obtain ⟨x7, l7, e7, h7, hl7⟩ := ceql_cons hl6; subst e7
+  have := ceql_nil hl7; subst this
   have r0 := valBig_of_ceq _ _ h0
   have r1 := valOpt_of_ceq bigV valBig valBig_of_ceq _ _ h1
   have r2 := valOpt_of_ceq bigV valBig valBig_of_ceq _ _ h2
@@ -292,9 +300,9 @@ theorem valRsaPriv_of_ceq (t : RsaPrivT) (v : Val) (h : ContentEq (rsaPrivVal t)
 theorem valRsaPub_of_ceq (t : RsaPubT) (v : Val) (h : ContentEq (rsaPubVal t) v) : valRsaPub v = some t := by
   obtain ⟨l, hv, hl⟩ := ceq_struct h
   subst hv
-  obtain ⟨x0, l0, e0, h0, hl⟩ := ceql_cons hl; subst e0
-  obtain ⟨x1, l1, e1, h1, hl⟩ := ceql_cons hl; subst e1
-  have := ceql_nil hl; subst this
+  obtain ⟨x0, l0, e0, h0, hl0⟩ := ceql_cons hl; subst e0
+  obtain ⟨x1, l1, e1, h1, hl1⟩ := ceql_cons hl0; subst e1
+  have := ceql_nil hl1; subst this
   have r0 := valBig_of_ceq _ _ h0
   have r1 := valBig_of_ceq _ _ h1
   simp [valRsaPub, r0, r1]
@@ -302,9 +310,9 @@ theorem valRsaPub_of_ceq (t : RsaPubT) (v : Val) (h : ContentEq (rsaPubVal t) v)
 theorem valEcPriv_of_ceq (t : EcPrivT) (v : Val) (h : ContentEq (ecPrivVal t) v) : valEcPriv v = some t := by
   obtain ⟨l, hv, hl⟩ := ceq_struct h
   subst hv
-  obtain ⟨x0, l0, e0, h0, hl⟩ := ceql_cons hl; subst e0
-  obtain ⟨x1, l1, e1, h1, hl⟩ := ceql_cons hl; subst e1
-  have := ceql_nil hl; subst this
+  obtain ⟨x0, l0, e0, h0, hl0⟩ := ceql_cons hl; subst e0
+  obtain ⟨x1, l1, e1, h1, hl1⟩ := ceql_cons hl0; subst e1
+  have := ceql_nil hl1; subst this
   have r0 := valNat_of_ceq _ _ h0
   have r1 := valBig_of_ceq _ _ h1
   simp [valEcPriv, r0, r1]
@@ -312,9 +320,9 @@ theorem valEcPriv_of_ceq (t : EcPrivT) (v : Val) (h : ContentEq (ecPrivVal t) v)
 theorem valEcPub_of_ceq (t : EcPubT) (v : Val) (h : ContentEq (ecPubVal t) v) : valEcPub v = some t := by
   obtain ⟨l, hv, hl⟩ := ceq_struct h
   subst hv
-  obtain ⟨x0, l0, e0, h0, hl⟩ := ceql_cons hl; subst e0
-  obtain ⟨x1, l1, e1, h1, hl⟩ := ceql_cons hl; subst e1
-  have := ceql_nil hl; subst this
+  obtain ⟨x0, l0, e0, h0, hl0⟩ := ceql_cons hl; subst e0
+  obtain ⟨x1, l1, e1, h1, hl1⟩ := ceql_cons hl0; subst e1
+  have := ceql_nil hl1; subst this
   have r0 := valNat_of_ceq _ _ h0
   have r1 := valBytes_of_ceq _ _ h1
   simp [valEcPub, r0, r1]
@@ -322,8 +330,8 @@ theorem valEcPub_of_ceq (t : EcPubT) (v : Val) (h : ContentEq (ecPubVal t) v) : 
 theorem valSym_of_ceq (b : Bytes) (v : Val) (h : ContentEq (symVal b) v) : valSym v = some b := by
   obtain ⟨l, hv, hl⟩ := ceq_struct h
   subst hv
-  obtain ⟨x0, l0, e0, h0, hl⟩ := ceql_cons hl; subst e0
-  have := ceql_nil hl; subst this
+  obtain ⟨x0, l0, e0, h0, hl0⟩ := ceql_cons hl; subst e0
+  have := ceql_nil hl0; subst this
   have r0 := valBytes_of_ceq _ _ h0
   simp [valSym, r0]
 
@@ -331,15 +339,15 @@ theorem valMaterial_of_ceq (m : Material) (v : Val) (h : ContentEq (materialVal 
     valMaterial v = some m := by
   obtain ⟨l, hv, hl⟩ := ceq_struct h
   subst hv
-  obtain ⟨x0, l0, e0, h0, hl⟩ := ceql_cons hl; subst e0
-  obtain ⟨x1, l1, e1, h1, hl⟩ := ceql_cons hl; subst e1
-  obtain ⟨x2, l2, e2, h2, hl⟩ := ceql_cons hl; subst e2
-  obtain ⟨x3, l3, e3, h3, hl⟩ := ceql_cons hl; subst e3
-  obtain ⟨x4, l4, e4, h4, hl⟩ := ceql_cons hl; subst e4
-  obtain ⟨x5, l5, e5, h5, hl⟩ := ceql_cons hl; subst e5
-  obtain ⟨x6, l6, e6, h6, hl⟩ := ceql_cons hl; subst e6
-  obtain ⟨x7, l7, e7, h7, hl⟩ := ceql_cons hl; subst e7
-  have := ceql_nil hl; subst this
+  obtain ⟨x0, l0, e0, h0, hl0⟩ := ceql_cons hl; subst e0
+  obtain ⟨x1, l1, e1, h1, hl1⟩ := ceql_cons hl0; subst e1
+  obtain ⟨x2, l2, e2, h2, hl2⟩ := ceql_cons hl1; subst e2
+  obtain ⟨x3, l3, e3, h3, hl3⟩ := ceql_cons hl2; subst e3
+  obtain ⟨x4, l4, e4, h4, hl4⟩ := ceql_cons hl3; subst e4
+  obtain ⟨x5, l5, e5, h5, hl5⟩ := ceql_cons hl4; subst e5
+  obtain ⟨x6, l6, e6, h6, hl6⟩ := ceql_cons hl5; subst e6
+  obtain ⟨x7, l7, e7, h7, hl7⟩ := ceql_cons hl6; subst e7
+  have := ceql_nil hl7; subst this
   have r0 := valOpt_of_ceq bytesV valBytes valBytes_of_ceq _ _ h0
   have r1 := valOpt_of_ceq symVal valSym valSym_of_ceq _ _ h1
   have r2 := valOpt_of_ceq rsaPrivVal valRsaPriv valRsaPriv_of_ceq _ _ h2
@@ -354,9 +362,9 @@ theorem valPlain_of_ceq (p : Plain) (hp : p.attrs = 0) (v : Val) (h : ContentEq 
     valPlain v = some p := by
   obtain ⟨l, hv, hl⟩ := ceq_struct h
   subst hv
-  obtain ⟨x0, l0, e0, h0, hl⟩ := ceql_cons hl; subst e0
-  obtain ⟨x1, l1, e1, h1, hl⟩ := ceql_cons hl; subst e1
-  have := ceql_nil hl; subst this
+  obtain ⟨x0, l0, e0, h0, hl0⟩ := ceql_cons hl; subst e0
+  obtain ⟨x1, l1, e1, h1, hl1⟩ := ceql_cons hl0; subst e1
+  have := ceql_nil hl1; subst this
   have := ceq_list_nil h1; subst this
   have r0 := valMaterial_of_ceq _ _ h0
   cases p with
@@ -369,9 +377,9 @@ theorem valKeyValue_of_ceq (kv : KeyValueV) (hp : ∀ p, kv.plain = some p → p
     (h : ContentEq (keyValueVal kv) v) : valKeyValue v = some kv := by
   obtain ⟨l, hv, hl⟩ := ceq_struct h
   subst hv
-  obtain ⟨x0, l0, e0, h0, hl⟩ := ceql_cons hl; subst e0
-  obtain ⟨x1, l1, e1, h1, hl⟩ := ceql_cons hl; subst e1
-  have := ceql_nil hl; subst this
+  obtain ⟨x0, l0, e0, h0, hl0⟩ := ceql_cons hl; subst e0
+  obtain ⟨x1, l1, e1, h1, hl1⟩ := ceql_cons hl0; subst e1
+  have := ceql_nil hl1; subst this
   have r0 := valOpt_of_ceq bytesV valBytes valBytes_of_ceq _ _ h0
   have r1 : valOpt valPlain x1 = some kv.plain := by
     cases hpl : kv.plain with
@@ -391,13 +399,13 @@ theorem valKB_of_ceq (kb : KeyBlockV) (hw : kb.Wireable) (v : Val) (h : ContentE
     valKB v = some kb := by
   obtain ⟨l, hv, hl⟩ := ceq_struct h
   subst hv
-  obtain ⟨x0, l0, e0, h0, hl⟩ := ceql_cons hl; subst e0
-  obtain ⟨x1, l1, e1, h1, hl⟩ := ceql_cons hl; subst e1
-  obtain ⟨x2, l2, e2, h2, hl⟩ := ceql_cons hl; subst e2
-  obtain ⟨x3, l3, e3, h3, hl⟩ := ceql_cons hl; subst e3
-  obtain ⟨x4, l4, e4, h4, hl⟩ := ceql_cons hl; subst e4
-  obtain ⟨x5, l5, e5, h5, hl⟩ := ceql_cons hl; subst e5
-  have := ceql_nil hl; subst this
+  obtain ⟨x0, l0, e0, h0, hl0⟩ := ceql_cons hl; subst e0
+  obtain ⟨x1, l1, e1, h1, hl1⟩ := ceql_cons hl0; subst e1
+  obtain ⟨x2, l2, e2, h2, hl2⟩ := ceql_cons hl1; subst e2
+  obtain ⟨x3, l3, e3, h3, hl3⟩ := ceql_cons hl2; subst e3
+  obtain ⟨x4, l4, e4, h4, hl4⟩ := ceql_cons hl3; subst e4
+  obtain ⟨x5, l5, e5, h5, hl5⟩ := ceql_cons hl4; subst e5
+  have := ceql_nil hl5; subst this
   have := ceq_ptr_none h5; subst this
   have r0 := valNat_of_ceq _ _ h0
   have r1 := valNat_of_ceq _ _ h1
@@ -425,43 +433,40 @@ theorem valObj_of_contentEq (o : Obj) (hw : Wireable o) (v v' : Val) (hv : objVa
     simp only [objVal, Option.some.injEq] at hv; subst hv
     obtain ⟨b, hb, hab⟩ := ceq_ptr_some h; subst hb
     obtain ⟨l, hl, hll⟩ := ceq_struct hab; subst hl
-    obtain ⟨x0, l0, e0, h0, hll⟩ := ceql_cons hll; subst e0
-    have := ceql_nil hll; subst this
+    obtain ⟨x0, l0, e0, h0, hll0⟩ := ceql_cons hll; subst e0
+    have := ceql_nil hll0; subst this
     simp [valObj, Obj.typeCode, valKB_of_ceq kb hw x0 h0]
   | publicKey kb =>
     simp only [objVal, Option.some.injEq] at hv; subst hv
     obtain ⟨b, hb, hab⟩ := ceq_ptr_some h; subst hb
     obtain ⟨l, hl, hll⟩ := ceq_struct hab; subst hl
-    obtain ⟨x0, l0, e0, h0, hll⟩ := ceql_cons hll; subst e0
-    have := ceql_nil hll; subst this
+    obtain ⟨x0, l0, e0, h0, hll0⟩ := ceql_cons hll; subst e0
+    have := ceql_nil hll0; subst this
     simp [valObj, Obj.typeCode, valKB_of_ceq kb hw x0 h0]
   | privateKey kb =>
     simp only [objVal, Option.some.injEq] at hv; subst hv
     obtain ⟨b, hb, hab⟩ := ceq_ptr_some h; subst hb
     obtain ⟨l, hl, hll⟩ := ceq_struct hab; subst hl
-    obtain ⟨x0, l0, e0, h0, hll⟩ := ceql_cons hll; subst e0
-    have := ceql_nil hll; subst this
+    obtain ⟨x0, l0, e0, h0, hll0⟩ := ceql_cons hll; subst e0
+    have := ceql_nil hll0; subst this
     simp [valObj, Obj.typeCode, valKB_of_ceq kb hw x0 h0]
   | secretData ty kb =>
     simp only [objVal, Option.some.injEq] at hv; subst hv
     obtain ⟨b, hb, hab⟩ := ceq_ptr_some h; subst hb
     obtain ⟨l, hl, hll⟩ := ceq_struct hab; subst hl
-    obtain ⟨x0, l0, e0, h0, hll⟩ := ceql_cons hll; subst e0
-    obtain ⟨x1, l1, e1, h1, hll⟩ := ceql_cons hll; subst e1
-    have := ceql_nil hll; subst this
+    obtain ⟨x0, l0, e0, h0, hll0⟩ := ceql_cons hll; subst e0
+    obtain ⟨x1, l1, e1, h1, hll1⟩ := ceql_cons hll0; subst e1
+    have := ceql_nil hll1; subst this
     simp [valObj, Obj.typeCode, valNat_of_ceq ty x0 h0, valKB_of_ceq kb hw x1 h1]
   | certificate ty val =>
     simp only [objVal, Option.some.injEq] at hv; subst hv
     obtain ⟨b, hb, hab⟩ := ceq_ptr_some h; subst hb
     obtain ⟨l, hl, hll⟩ := ceq_struct hab; subst hl
-    obtain ⟨x0, l0, e0, h0, hll⟩ := ceql_cons hll; subst e0
-    obtain ⟨x1, l1, e1, h1, hll⟩ := ceql_cons hll; subst e1
-    have := ceql_nil hll; subst this
+    obtain ⟨x0, l0, e0, h0, hll0⟩ := ceql_cons hll; subst e0
+    obtain ⟨x1, l1, e1, h1, hll1⟩ := ceql_cons hll0; subst e1
+    have := ceql_nil hll1; subst this
     simp [valObj, Obj.typeCode, valNat_of_ceq ty x0 h0, valBytes_of_ceq val x1 h1]
-  | splitKey kb => simp [objVal] at hv
-  | pgpKey kb => simp [objVal] at hv
-  | opaque => simp [objVal] at hv
-  | template => simp [objVal] at hv
+  | _ => simp [objVal] at hv
 
 /-- the objects the register builders produce are wireable. -/
 theorem plainKB_wireable (format comp alg len : Nat) (m : Material) : (plainKB format comp alg len m).Wireable := by
@@ -471,5 +476,204 @@ theorem plainKB_wireable (format comp alg len : Nat) (m : Material) : (plainKB f
   simp only [Option.some.injEq] at hp
   subst hp
   rfl
+
+theorem rawKeyBytes_wireable (priv : Bool) (der : Bytes) (alg bitlen format : Nat) :
+    Wireable (rawKeyBytes priv der alg bitlen format) := by
+  cases priv
+  · show KeyBlockV.Wireable (plainKB _ _ _ _ _); exact plainKB_wireable _ _ _ _ _
+  · show KeyBlockV.Wireable (plainKB _ _ _ _ _); exact plainKB_wireable _ _ _ _ _
+
+/-- every object a register builder produces is wireable. -/
+theorem registerF_wireable (C : CryptoOps) (f : Nat) (ver : Nat × Nat) (key : AnyKey C) (o : Obj)
+    (h : registerF C f ver key = .ok o) : Wireable o := by
+  cases key with
+  | rsaPriv k =>
+    simp only [registerF, registerRsaPrivF] at h
+    repeat' split at h
+    all_goals
+      cases h <;> first | exact rawKeyBytes_wireable _ _ _ _ _ | exact plainKB_wireable _ _ _ _ _
+  | rsaPub k =>
+    simp only [registerF, registerRsaPubF] at h
+    repeat' split at h
+    all_goals
+      cases h <;> first | exact rawKeyBytes_wireable _ _ _ _ _ | exact plainKB_wireable _ _ _ _ _
+  | ecPriv k =>
+    simp only [registerF, registerEcPrivF] at h
+    repeat' split at h
+    all_goals
+      cases h <;> first | exact rawKeyBytes_wireable _ _ _ _ _ | exact plainKB_wireable _ _ _ _ _
+  | ecPub k =>
+    simp only [registerF, registerEcPubF] at h
+    repeat' split at h
+    all_goals
+      cases h <;> first | exact rawKeyBytes_wireable _ _ _ _ _ | exact plainKB_wireable _ _ _ _ _
+  | sym alg v =>
+    simp only [registerF, registerSymF] at h
+    repeat' split at h
+    all_goals
+      cases h <;> first | exact rawKeyBytes_wireable _ _ _ _ _ | exact plainKB_wireable _ _ _ _ _
+  | secret kind v =>
+    simp only [registerF, registerSecret, Res.ok.injEq] at h
+    subst h
+    exact plainKB_wireable _ _ _ _ _
+
+/-! ## 5. `Conforms` by kernel evaluation for values that carry big integers
+
+`conforms_of_checks` (C01) evaluates the length side conditions with `encodeBig`, which rests on the well-founded
+`natToBytesBE` and does not reduce in the kernel, so its checker refuses every big integer.  Here the lengths are
+bounded from above through `Nat.log2` (which the kernel evaluates), which is all the side conditions need. -/
+
+/-- upper bound of the number of bytes of `encodeBig v`. -/
+def bigUB (v : Int) : Nat := Nat.log2 v.natAbs / 8 + 9
+
+theorem natToBytesBE_length_le (n : Nat) : (natToBytesBE n).length ≤ Nat.log2 n / 8 + 1 := by
+  by_cases h : n = 0
+  · subst h; rw [natToBytesBE_zero]; simp
+  · have hl := natToBytesBE_lower h
+    have hp : (256 : Nat) ^ ((natToBytesBE n).length - 1) = 2 ^ (8 * ((natToBytesBE n).length - 1)) := by
+      rw [show (256 : Nat) = 2 ^ 8 by decide, ← Nat.pow_mul]
+    rw [hp] at hl
+    have := (Nat.le_log2 h).mpr hl
+    omega
+
+theorem padForLen_le (l : Nat) : padForLen l 8 ≤ 8 := by have := padForLen_lt l; omega
+
+theorem encodeBig_length_le (v : Int) : (encodeBig v).length ≤ bigUB v := by
+  unfold bigUB
+  rcases Int.lt_trichotomy v 0 with h | h | h
+  · rw [encodeBig_neg v h]
+    have hm := natToBytesBE_length_le v.natAbs
+    have hb := negBody_length v
+    have hp : negPad (negBody v) ≤ 8 := by
+      unfold negPad; split
+      · exact Nat.le_refl _
+      · exact padForLen_le _
+    simp only [List.length_append, List.length_replicate]
+    omega
+  · subst h; rw [encodeBig_zero]; simp
+  · rw [encodeBig_pos v h]
+    have hm := natToBytesBE_length_le v.natAbs
+    have hp : posPad (natToBytesBE v.natAbs) ≤ 8 := by
+      unfold posPad; split
+      · exact Nat.le_refl _
+      · exact padForLen_le _
+    simp only [List.length_append, List.length_replicate]
+    omega
+
+mutual
+  /-- upper bound of `(enc t).length`, evaluable by the kernel. -/
+  def lenUB : Item → Nat
+    | .struct _ cs => 15 + lenUBList cs
+    | .big _ v => 15 + bigUB v
+    | .text _ s => 15 + s.length
+    | .bytes _ s => 15 + s.length
+    | .int .. => 24
+    | .long .. => 24
+    | .enum .. => 24
+    | .bool .. => 24
+    | .date .. => 24
+    | .interval .. => 24
+  def lenUBList : List Item → Nat
+    | [] => 0
+    | x :: xs => lenUB x + lenUBList xs
+end
+
+theorem paddedLen_le (l : Nat) : paddedLen l ≤ l + 7 := by
+  unfold paddedLen; have := padForLen_lt l; omega
+
+mutual
+  theorem enc_length_le : (t : Item) → (enc t).length ≤ lenUB t
+    | .struct tag cs => by
+      have := encList_length_le cs
+      have hp := paddedLen_le (encList cs).length
+      rw [enc_length_eq, lenUB]; simp only [Item.body]; omega
+    | .big tag v => by
+      have := encodeBig_length_le v
+      have hp := paddedLen_le (encodeBig v).length
+      rw [enc_length_eq, lenUB]; simp only [Item.body]; omega
+    | .text tag s => by
+      have hp := paddedLen_le s.length
+      rw [enc_length_eq, lenUB]; simp only [Item.body]; omega
+    | .bytes tag s => by
+      have hp := paddedLen_le s.length
+      rw [enc_length_eq, lenUB]; simp only [Item.body]; omega
+    | .int tag v => by rw [enc_length_eq, lenUB]; simp [Item.body, paddedLen, padForLen]
+    | .long tag v => by rw [enc_length_eq, lenUB]; simp [Item.body, paddedLen, padForLen]
+    | .enum tag v => by rw [enc_length_eq, lenUB]; simp [Item.body, paddedLen, padForLen]
+    | .bool tag b => by rw [enc_length_eq, lenUB]; simp [Item.body, paddedLen, padForLen]
+    | .date tag v => by rw [enc_length_eq, lenUB]; simp [Item.body, paddedLen, padForLen]
+    | .interval tag v => by rw [enc_length_eq, lenUB]; simp [Item.body, paddedLen, padForLen]
+  theorem encList_length_le : (ts : List Item) → (encList ts).length ≤ lenUBList ts
+    | [] => by simp [encList, lenUBList]
+    | x :: xs => by
+      have h1 := enc_length_le x
+      have h2 := encList_length_le xs
+      rw [encList, lenUBList]; simp only [List.length_append]; omega
+end
+
+mutual
+  /-- the range side conditions, with the lengths replaced by their upper bounds. -/
+  def inRangeUB : Item → Bool
+    | .struct tag cs => decide (0 < tag) && decide (tag < 2 ^ 24) && decide (lenUBList cs < 2 ^ 32) && allInRangeUB cs
+    | .big tag v => decide (0 < tag) && decide (tag < 2 ^ 24) && decide (bigUB v < 2 ^ 32)
+    | .int tag v => (Item.int tag v).inRangeB
+    | .long tag v => (Item.long tag v).inRangeB
+    | .enum tag v => (Item.enum tag v).inRangeB
+    | .bool tag b => (Item.bool tag b).inRangeB
+    | .text tag s => (Item.text tag s).inRangeB
+    | .bytes tag s => (Item.bytes tag s).inRangeB
+    | .date tag v => (Item.date tag v).inRangeB
+    | .interval tag v => (Item.interval tag v).inRangeB
+  def allInRangeUB : List Item → Bool
+    | [] => true
+    | x :: xs => inRangeUB x && allInRangeUB xs
+end
+
+mutual
+  theorem inRangeUB_sound : (t : Item) → inRangeUB t = true → t.InRange
+    | .struct tag cs, h => by
+      simp only [inRangeUB, Bool.and_eq_true, decide_eq_true_eq] at h
+      have := encList_length_le cs
+      rw [Item.InRange]
+      exact ⟨h.1.1.1, h.1.1.2, by omega, allInRangeUB_sound cs h.2⟩
+    | .big tag v, h => by
+      simp only [inRangeUB, Bool.and_eq_true, decide_eq_true_eq] at h
+      have := encodeBig_length_le v
+      rw [Item.InRange]
+      exact ⟨h.1.1, h.1.2, by omega⟩
+    | .int tag v, h => Item.inRangeB_sound _ (by simpa [inRangeUB] using h)
+    | .long tag v, h => Item.inRangeB_sound _ (by simpa [inRangeUB] using h)
+    | .enum tag v, h => Item.inRangeB_sound _ (by simpa [inRangeUB] using h)
+    | .bool tag b, h => Item.inRangeB_sound _ (by simpa [inRangeUB] using h)
+    | .text tag s, h => Item.inRangeB_sound _ (by simpa [inRangeUB] using h)
+    | .bytes tag s, h => Item.inRangeB_sound _ (by simpa [inRangeUB] using h)
+    | .date tag v, h => Item.inRangeB_sound _ (by simpa [inRangeUB] using h)
+    | .interval tag v, h => Item.inRangeB_sound _ (by simpa [inRangeUB] using h)
+  theorem allInRangeUB_sound : (ts : List Item) → allInRangeUB ts = true → Item.AllInRange ts
+    | [], _ => by rw [Item.AllInRange]; trivial
+    | x :: xs, h => by
+      simp only [allInRangeUB, Bool.and_eq_true] at h
+      rw [Item.AllInRange]
+      exact ⟨inRangeUB_sound x h.1, allInRangeUB_sound xs h.2⟩
+end
+
+/-- the encoder's output satisfies the (bounded) range side conditions. -/
+def encOkUB (S : Schema) (d tag : Nat) (v : Val) : Bool :=
+  match encK S marshalFuel (S.dyn d).kind (topTag S d tag) v none with
+  | .ok (items, _) => allInRangeUB items
+  | _ => false
+
+/-- `Conforms` from two executable checks, big integers allowed. -/
+theorem conforms_of_checks_big (S : Schema) (d tag : Nat) (v : Val)
+    (h1 : (normTop S d tag v).isSome = true) (h2 : encOkUB S d tag v = true) : Conforms S d tag v := by
+  unfold encOkUB at h2
+  split at h2
+  · rename_i items w heq
+    refine ⟨h1, ?_⟩
+    intro items' ver' he
+    rw [heq] at he
+    simp only [Res.ok.injEq, Prod.mk.injEq] at he
+    rw [← he.1]; exact allInRangeUB_sound items h2
+  · contradiction
 
 end Kmip.Key.Wire
